@@ -317,7 +317,11 @@ func (j *judgeCtx) inflightAt(seq uint64) int {
 
 func (j *judgeCtx) checkExecution() {
 	wd := j.wd
-	atRestRunning := j.ep.Res.Verdict == simrt.VDone && j.finalState == lsR && wd.cancelled == 0
+	// running at rest: by the reference lifecycle, or - when concurrent lifecycle calls made
+	// the reference ambiguous - because the worker itself reports Running at the final
+	// quiescent point ("never reports Running while unable to process jobs")
+	atRestRunning := j.ep.Res.Verdict == simrt.VDone && wd.cancelled == 0 &&
+		(j.finalState == lsR || (j.finalState == lsU && j.lastStatus() == "Running"))
 	for _, s := range wd.subs {
 		if !s.Submitted && s.AddInv == 0 {
 			continue
